@@ -188,6 +188,8 @@ Definition is_none (t : ty) : bool := match t with TNone => true | _ => false en
 Definition is_dc (t : ty) : bool := match t with TObj _ _ => true | _ => false end.
 Definition is_any_map (t : ty) : bool := match t with TMap TAny => true | _ => false end.
 Definition is_other (t : ty) : bool := negb (is_none t) && negb (is_dc t) && negb (is_any_map t).
+(* get_origin(variant) is dict among the "other" variants: dict[str, T] with T <> Any *)
+Definition is_tmap (t : ty) : bool := match t with TMap TAny => false | TMap _ => true | _ => false end.
 
 Section Combinators.
   Variable S : ty -> json -> res value.
@@ -273,7 +275,9 @@ Section Combinators.
         match try_each is_dc vs j with
         | Some v => Ok v
         | None => if existsb is_any_map vs then Ok (raw j)
-                  else if existsb is_dc vs then Err
+                  else if existsb is_dc vs
+                       then (* "if errors:" typed dict variants are tried, then ValueError *)
+                            match try_each is_tmap vs j with Some v => Ok v | None => Err end
                   else others
         end
     | _ => others
@@ -442,7 +446,7 @@ Section Safe.
     | JObj kv =>
         if existsb (fun v => is_dc v && may_accept v j) vs then first_safe is_dc vs j
         else if existsb is_any_map vs then wf_json j
-        else if existsb is_dc vs then false                      (* F14e *)
+        else if existsb is_dc vs then first_safe is_tmap vs j
         else first_safe is_other vs j
     | _ => first_safe is_other vs j
     end.
@@ -484,10 +488,10 @@ Fixpoint safe (t : ty) (j : json) {struct t} : bool :=
   end.
 
 (* ---- finding classes: which defect explains an unsafe union node (bits of Corr.C14.run) ---- *)
-Record blame := { b_a : bool; b_b : bool; b_d : bool; b_e : bool }.
-Definition no_blame := {| b_a := false; b_b := false; b_d := false; b_e := false |}.
+Record blame := { b_a : bool; b_b : bool; b_d : bool }.
+Definition no_blame := {| b_a := false; b_b := false; b_d := false |}.
 Definition blame_or (x y : blame) : blame :=
-  {| b_a := b_a x || b_a y; b_b := b_b x || b_b y; b_d := b_d x || b_d y; b_e := b_e x || b_e y |}.
+  {| b_a := b_a x || b_a y; b_b := b_b x || b_b y; b_d := b_d x || b_d y |}.
 
 Definition node_blame (d : option (str * list (str * ty))) (vs : list ty) (j : json) : blame :=
   let unmapped_disc :=
@@ -499,10 +503,9 @@ Definition node_blame (d : option (str * list (str * ty))) (vs : list ty) (j : j
   | JObj kv =>
       let dc_takes := existsb (fun v => is_dc v && may_accept v j) vs in
       {| b_a := dc_takes;
-         b_b := negb dc_takes && negb (existsb is_dc vs) && negb (existsb is_any_map vs);
-         b_d := unmapped_disc;
-         b_e := negb dc_takes && existsb is_dc vs && negb (existsb is_any_map vs) |}
-  | _ => {| b_a := false; b_b := true; b_d := false; b_e := false |}
+         b_b := negb dc_takes && negb (existsb is_any_map vs);
+         b_d := unmapped_disc |}
+  | _ => {| b_a := false; b_b := true; b_d := false |}
   end.
 
 (* walk type and payload together; blame every union node that is not safe for its sub-payload *)
